@@ -112,6 +112,9 @@ func init() {
 											}
 											c.Docs = append(c.Docs, d)
 										}
+										if r.Chance(30) { // several documents per AddDocument call: the call stops at the refused one
+											c.Batch = 2 + r.Intn(3)
+										}
 										add(c)
 									}
 								}
@@ -128,6 +131,8 @@ func init() {
 					c := eCase{Kind: kind, Policy: "skip", Configs: conts, Queries: queries}
 					c.Docs = append(c.Docs, docs...)
 					c.Docs = append(c.Docs, eDoc{ID: 78}, many, eDoc{ID: 1 << 43, Cons: []eConj{{}}}, eDoc{ID: -(1 << 50), Cons: []eConj{{mkGood(0, true)}}})
+					add(c)
+					c.Batch = 3
 					add(c)
 				}
 			}
